@@ -232,6 +232,37 @@ def rule_counts(plan: list[list[int]], n: int, rounds: int,
     return total
 
 
+def rule_counts_with_byes(plan: list[list[int]], n: int, rounds: int,
+                          st: tuple[int, ...]) -> dict[str, int]:
+    """Documented error count of a mutually consistent plan that may contain
+    idle days, for settings under which no separation error can occur
+    (``sep_min == 0`` and ``sep_max`` at least the longest possible gap): one
+    error per idle (team, day); an idle day ends the running streak, which
+    costs the missing days if it is shorter than the minimum; runs beyond the
+    maximum cost one error per extra day; pairing counts and balance as for
+    complete plans. (With separation limits in force the documentation leaves
+    open whether idle days count as "games in between", so this oracle is
+    not defined there.)"""
+    days = (n - 1) * rounds
+    if not shape_ok(plan, n, rounds) or inconsistencies(plan) \
+            or self_play(plan):
+        raise ValueError("needs a mutually consistent plan")
+    if st[4] != 0 or st[5] < days - 2:
+        raise ValueError("separation limits must be vacuous")
+    total = dict.fromkeys((*RULES, "bye"), 0)
+    for t in range(n):
+        col = [row[t] for row in plan]
+        total["bye"] += sum(1 for v in col if v == 0)
+        for k, v in run_errors(runs(col), st).items():
+            total[k] += v
+    for (i, _j), lst in meetings(plan, n).items():
+        di = [d for d, h in lst if h == i]
+        dj = [d for d, h in lst if h != i]
+        for k, v in pair_errors(di, dj, rounds, st).items():
+            total[k] += v
+    return total
+
+
 def sound_upper_bound(n: int, rounds: int, st: tuple[int, ...]) -> int:
     """A bound derived independently of the code: per team and day at most one
     bye/inconsistency, P streak errors (also once for the open last streak),
